@@ -7,6 +7,12 @@ CHECKS = {
  "C01": ("exploration","seeded simulation: real serializer -> link with PRNG-decided segmentation -> real deserializer; exact sequence oracle","§4 C01",
          "Seeded search over sender scripts x segmentations (400k quick / 12M thorough runs). Finds any round-trip failure that needs a particular header history, chunk size or cut position; samples, does not enumerate.",
          "Trusts the link/driver stubs; raw type-1 messages announce the chunk size in force; messages bounded to 20,000 chunks."),
+ "C06": ("exploration","seeded simulation: independent reference encoder as foreign peer (free encoder choices drawn from the choice stream) -> link segmentation -> real deserializer; exact sequence oracle","§4 C06",
+         "Seeded search over foreign encodings (csid forms, legal header formats, extended timestamps, zero-length messages, in-band chunk sizes, wrapping deltas) x segmentations.",
+         "Trusts RefChunkEncoder (cross-validated against the strict RefChunkDecoder at every start); messages bounded to 5,000 chunks."),
+ "C16": ("exploration","seeded simulation: multiplexing reference encoder with 2-4 messages in flight; the scheduler picks chunk by chunk which chunk stream emits next; per-message integrity oracle at completion","§4 C16",
+         "Seeded search over chunk-level interleavings of messages on distinct chunk stream ids x segmentations; every message must be delivered at its last chunk with its own fields and bytes.",
+         "Chunk-size changes only while no message is in flight; one message at a time per csid."),
  "C07": ("exploration","seeded simulation; recorded wire history checked by an independent strict RTMP chunk decoder (reference model)","§4 C07",
          "Every packet the real serializer emits for seeded scripts is parsed by a hand-written strict specification decoder and compared with the accepted messages.",
          "Trusts RefChunkDecoder (cross-validated against RefChunkEncoder at every start); one documented leniency (format-0 header repeated on continuation chunks)."),
